@@ -1,6 +1,6 @@
 (* Props/C09.v — C09: latency control bounds queued stream data and never wedges. *)
 From Coq Require Import List NArith Ascii Bool Lia.
-From SV Require Import Lib.Bytes Model.Wire Model.Chan Model.Stream
+From SV Require Import Model.StreamQuiet Proofs.Stream_quiet Lib.Bytes Model.Wire Model.Chan Model.Stream
   Proofs.Stream_basic Proofs.Stream_wrap Proofs.Stream_cb Proofs.Stream_lat Gen.Consts.
 Import ListNotations.
 Local Open Scope N_scope.
@@ -56,6 +56,32 @@ Proof.
   intros [|]; reflexivity.
 Qed.
 Print Assumptions c09_off_no_pause.
+
+(* (6) "Every such request is eventually answered, so transfers always resume": while an end is
+   paused, its round-trip probe is OUTSTANDING — the PING 'rttest' is in its queue or on the link to
+   the peer, or the PONG is in the peer's queue or on the link back (all runs, all I/O outcomes;
+   together with (3) PING always answered and (4) PONG resumes, the probe can only move forward) *)
+Theorem c09_outstanding :
+  forall maxc lbs evs w sd,
+  run (world0 maxc lbs) evs = Ok w -> tf w sd = true -> outstanding w sd = true.
+Proof. exact q_c09_outstanding. Qed.
+Print Assumptions c09_outstanding.
+
+(* (7) ... hence the tunnel is never wedged: once all queues and links are drained no end is paused *)
+Theorem c09_never_wedged :
+  forall maxc lbs evs w,
+  run (world0 maxc lbs) evs = Ok w ->
+  w_cs w = [] -> w_sc w = [] -> outq w Client = [] -> outq w Server = [] ->
+  tf w Client = false /\ tf w Server = false.
+Proof. exact q_c09_never_wedged. Qed.
+Print Assumptions c09_never_wedged.
+
+(* (8) a paused end is never part of a quiescent state: something is always still enabled *)
+Theorem c09_paused_not_quiescent :
+  forall maxc lbs evs w sd,
+  run (world0 maxc lbs) evs = Ok w -> tf w sd = true -> quiescentb w = false.
+Proof. exact q_c09_paused_not_quiescent. Qed.
+Print Assumptions c09_paused_not_quiescent.
 
 Theorem c09_consts : LATENCY_BUFFER_SIZE = 32768 /\ lenN rttest = 6.
 Proof. split; reflexivity. Qed.
